@@ -83,7 +83,8 @@ def offsets(seed):
     key = ('off', seed)
     if key not in _CACHE:
         rng = np.random.default_rng([int(seed), 1723])
-        _CACHE[key] = [np.zeros(3), rng.uniform(-2.0, 2.0, 3)]
+        # the last one: the far corner of a 1000 nm box (points small compared with their distance to the origin)
+        _CACHE[key] = [np.zeros(3), rng.uniform(-2.0, 2.0, 3), np.array([704.0, -896.0, 512.0]) + rng.uniform(-2.0, 2.0, 3)]
     return _CACHE[key]
 
 
@@ -114,7 +115,7 @@ class C17(Check):
                  'integer lattice on the real rotation_matrix / calcule_base, algebraic oracle on every result')
     level_text = ('34 axes (thorough: + every non-zero integer axis in {-2..2}^3) x 3 (5) norms from 1e-6 to 1e6 x '
                   '11 (21) angles in [-20, 20] and every angle pair per axis; every ordered triple of {-1,0,1}^3 '
-                  '(quick, 18 954) / {-1,0,1,2}^3 (thorough, 258 048) with first != third x 2 offsets x 3 scales, '
+                  '(quick, 18 954) / {-1,0,1,2}^3 (thorough, 258 048) with first != third x 3 offsets (origin, generic, the far corner of a 1000 nm box) x 3 scales, '
                   'plus 10 larger integer directions x 7 middle-point positions, are executed on the real code; '
                   'a coverage statement over that finite space, not a proof for all reals')
     level_note = ('trusted: numpy arithmetic and linalg.det/norm in the oracle; points that are nearly but not '
@@ -123,7 +124,7 @@ class C17(Check):
     assumptions = ['tolerances: 1e-12 for single rotation matrices, 1e-10 for the composition law, 1e-9 for frames '
                    '(design C17); the sense of rotation is not fixed by the statement and is not checked',
                    'frame inputs: a list of three float64 arrays; offsets {0, one generic vector of size <= 2 '
-                   'selected by VERIF_SEED}; scales 1e-3, 1, 1e3',
+                   'selected by VERIF_SEED, (704, -896, 512) plus such a vector}; scales 1e-3, 1, 1e3',
                    'generic axes (2) selected by VERIF_SEED']
 
     # ------------------------------------------------------------------
@@ -133,7 +134,7 @@ class C17(Check):
         self.bounds = {'axes': len(ax), 'axis_norms': norms(tier), 'angles': len(angles(tier)),
                        'angle_range': [-20, 20], 'lattice_values': sorted({p[0] for p in lat}),
                        'lattice_triples': len(lat) * (len(lat) - 1) * len(lat),
-                       'offsets': 2, 'scales': list(SCALES), 'noisy_directions': len(NOISY_DIRS),
+                       'offsets': 3, 'scales': list(SCALES), 'noisy_directions': len(NOISY_DIRS),
                        'noisy_middle_positions': len(NOISY_T)}
         u = [{'k': 'frames', 'p0': p0} for p0 in lat]
         step = 2 if tier != 'thorough' else 8
@@ -213,14 +214,22 @@ class C17(Check):
         # ONE axis array object is handed to every call of the case (a caller reusing its axis): the function must not
         # write into it - seen through its consequences on the later matrices
         shared_axis = axis.copy()
+        raw = {}
         for ia in (range(len(angs)) if 'b' in case or 'a' not in case else single):
             try:
-                mats[ia] = np.array(rotation_matrix(shared_axis, angs[ia]), float)
+                raw[ia] = rotation_matrix(shared_axis, angs[ia])
+                mats[ia] = np.array(raw[ia], float)
             except Exception as exc:
                 d = dict(case, a=ia)
                 R.case(d, outcome='exception', cls='rot/exception')
                 R.violation('rotation_matrix/exception', d, repr(exc))
                 return
+        # the matrices AS RETURNED are all held by the caller while the later ones are computed (Ra, Rb, then Ra @ Rb)
+        for ia in raw:
+            if not np.array_equal(np.asarray(raw[ia], float), mats[ia]):
+                R.violation('rotation_matrix/matrix-returned-earlier-changed-by-a-later-call', dict(case, a=ia),
+                            f'matrix for angle {angs[ia]!r} now reads {np.asarray(raw[ia]).tolist()}')
+                break
         if 'b' not in case:
             for ia in single:
                 th = angs[ia]
